@@ -591,15 +591,53 @@ class Parser:
         self._decode_fstring_parts(b, raw="r" in a.string.rstrip("'\"").lower())
         return ast.JoinedStr(values=b, **locs)
 
+    def formatted_value(
+        self,
+        value: ast.expr,
+        debug: TokenInfo | None,
+        conversion: int | None,
+        format_spec: ast.JoinedStr | None,
+        **locs: int,
+    ) -> ast.FormattedValue:
+        """A replacement field; with the `=` specifier the source text of the expression becomes a literal part."""
+        if conversion is None:
+            conversion = b"r"[0] if debug and format_spec is None else -1
+        node = ast.FormattedValue(value=value, conversion=conversion, format_spec=format_spec, **locs)
+        if debug:
+            lnum, col = locs["lineno"], locs["col_offset"] + 1  # just after the opening brace
+            lines = self._tokenizer.get_lines(list(range(lnum, debug.end[0] + 1)))
+            end_lnum, end_col = debug.end
+            while True:  # white space after the `=` belongs to the text
+                rest = lines[-1][end_col:]
+                stripped = rest.lstrip(" \t\f\r\n")
+                end_col += len(rest) - len(stripped)
+                following = self._tokenizer.get_lines([end_lnum + 1])[0] if not stripped else ""
+                if not following:
+                    break
+                lines.append(following)
+                end_lnum, end_col = end_lnum + 1, 0
+            lines[-1] = lines[-1][:end_col]
+            lines[0] = lines[0][col:]
+            node.debug_text = ast.Constant(  # type: ignore[attr-defined]
+                value="".join(lines), lineno=lnum, col_offset=col, end_lineno=end_lnum, end_col_offset=end_col
+            )
+        return node
+
     def _decode_fstring_parts(self, values: list[Any], raw: bool) -> None:
         """literal parts carry the source text: undouble braces and decode escapes like CPython does"""
+        parts: list[Any] = []
         for part in values:
             if isinstance(part, ast.Constant) and isinstance(part.value, str):
                 part.value = self._decode_fstring_text(part.value, raw)
-            elif isinstance(part, ast.FormattedValue) and isinstance(part.format_spec, ast.JoinedStr):
-                self._decode_fstring_parts(part.format_spec.values, raw)
-        # a part that is only a line continuation decodes to nothing
-        values[:] = [p for p in values if not (isinstance(p, ast.Constant) and p.value == "")]
+                if part.value == "":
+                    continue  # a part that is only a line continuation decodes to nothing
+            elif isinstance(part, ast.FormattedValue):
+                if isinstance(part.format_spec, ast.JoinedStr):
+                    self._decode_fstring_parts(part.format_spec.values, raw)
+                if (text := part.__dict__.pop("debug_text", None)) is not None:
+                    parts.append(text)  # verbatim, never decoded
+            parts.append(part)
+        values[:] = parts
 
     @staticmethod
     def _decode_fstring_text(text: str, raw: bool) -> str:
